@@ -37,7 +37,9 @@ def load_data(tr_samples_path, tr_psi_path=None, tr_bases_path=None, bases_path=
     """
     data = []
     data.append(
-        torch.tensor(np.loadtxt(tr_samples_path, dtype="float32"), dtype=torch.double)
+        torch.tensor(
+            np.loadtxt(tr_samples_path, dtype="float32", ndmin=2), dtype=torch.double
+        )
     )
 
     if tr_psi_path is not None:
@@ -48,7 +50,7 @@ def load_data(tr_samples_path, tr_psi_path=None, tr_bases_path=None, bases_path=
         data.append(target_psi)
 
     if tr_bases_path is not None:
-        data.append(np.loadtxt(tr_bases_path, dtype=str))
+        data.append(np.loadtxt(tr_bases_path, dtype=str, ndmin=2))
 
     if bases_path is not None:
         data.append(np.loadtxt(bases_path, dtype=str, ndmin=1))
@@ -82,7 +84,9 @@ def load_data_DM(
     """
     data = []
     data.append(
-        torch.tensor(np.loadtxt(tr_samples_path, dtype="float32"), dtype=torch.double)
+        torch.tensor(
+            np.loadtxt(tr_samples_path, dtype="float32", ndmin=2), dtype=torch.double
+        )
     )
 
     if tr_mtx_real_path is not None:
@@ -102,7 +106,7 @@ def load_data_DM(
             data.append(cplx.make_complex(mtx_real, mtx_imag))
 
     if tr_bases_path is not None:
-        data.append(np.loadtxt(tr_bases_path, dtype=str))
+        data.append(np.loadtxt(tr_bases_path, dtype=str, ndmin=2))
 
     if bases_path is not None:
         data.append(np.loadtxt(bases_path, dtype=str, ndmin=1))
